@@ -595,6 +595,38 @@ def run(ck: Check, prog: Program) -> None:
                        f'`{norm(node)[:90]}` is created inside a loop and reads the loop variable(s) {names} only when it is called: every '
                        f'route registered by the loop ends up with the LAST endpoint\'s dispatcher, so a request to one endpoint is answered '
                        f'by another endpoint\'s dispatcher (functools.partial(..., dispatcher=dispatcher) binds the value)')
+        # ROUTE-BIND (paired tables): where registration fills two tables of the instance (endpoint -> dispatcher, endpoint -> blueprint /
+        # sub-application) and the routes are bound by walking one and looking the other up under the same key, both are filled
+        # under the same key — a normalised key in one and the raw one in the other loses the pairing
+        pairs = set()
+        for m in ci.methods.values():
+            for loop in [x for x in walk_own(m.node) if isinstance(x, (ast.For, ast.AsyncFor))]:
+                it_ = loop.iter
+                src_ = it_.func.value if isinstance(it_, ast.Call) and isinstance(it_.func, ast.Attribute) and it_.func.attr in ('items', 'keys') else it_
+                a_ = dotted(src_)
+                kv = loop.target.elts[0] if isinstance(loop.target, ast.Tuple) and loop.target.elts else loop.target
+                if not a_ or not a_.startswith('self.') or not isinstance(kv, ast.Name):
+                    continue
+                for y in [z for b_ in loop.body for z in ast.walk(b_)]:
+                    b_tab = None
+                    if isinstance(y, ast.Call) and isinstance(y.func, ast.Attribute) and y.func.attr == 'get' and y.args and dotted(y.args[0]) == kv.id:
+                        b_tab = dotted(y.func.value)
+                    elif isinstance(y, ast.Subscript) and dotted(y.slice) == kv.id:
+                        b_tab = dotted(y.value)
+                    if b_tab and b_tab.startswith('self.') and b_tab != a_:
+                        pairs.add((a_, b_tab))
+        for a_, b_tab in sorted(pairs):
+            for m in ci.methods.values():
+                ka = [x.slice for x in walk_own(m.node) if isinstance(x, ast.Subscript) and isinstance(x.ctx, ast.Store) and dotted(x.value) == a_]
+                kb = [x.slice for x in walk_own(m.node) if isinstance(x, ast.Subscript) and isinstance(x.ctx, ast.Store) and dotted(x.value) == b_tab]
+                if ka and kb:
+                    same = {norm(k) for k in ka} == {norm(k) for k in kb}
+                    ck.ob('ROUTE-BIND', f'{fw}: {short(m.qualname)} fills {a_} and {b_tab} under the same key', same)
+                    if not same:
+                        ck.finding('ROUTE-BIND', m.qualname, f'{a_} and {b_tab} are filled under different keys', m.module.rel, kb[0].lineno,
+                                   f'{short(m.qualname)} stores into {a_}[{norm(ka[0])}] and into {b_tab}[{norm(kb[0])}], while the routes are bound by walking '
+                                   f'{a_} and looking {b_tab} up under the same key: an endpoint registered with a prefix the two keys spell differently '
+                                   f'(a trailing slash) is bound without its blueprint / sub-application, so it is served at another URL than configured')
         # GATE-ANSWER
         if wsgi is not None:
             w = ci.methods.get(wsgi)
